@@ -795,7 +795,54 @@ def _open_delivered_after_close(case, cid, closer, zombie_side):
     return g_announced is not None and g_closed is not None and g_closed < g_announced
 
 
+def _ids_reused_while_peer_closing(case):
+    """Stream ids that one side gave to a NEW channel object while the peer still held a not yet closed channel object with
+    that id (the peer's half of the close handshake of the previous channel had not finished)."""
+    w = W.World(case)
+    order = {"n": 0}
+    orig = w._after
+
+    def after(name, inp, exc):
+        orig(name, inp, exc)
+        order["n"] += 1
+        w.trace[name][-1]["g"] = order["n"]
+
+    w._after = after
+    w.run()
+    w.heal(6000)
+    out = set()
+    for x in "AB":
+        y = "B" if x == "A" else "A"
+        known = {}          # channel index -> id
+        closed_ids = set()  # ids that belonged to a channel object of x which is closed by now
+        for st in w.trace[x]:
+            chans = st["public"]["channels"]
+            for i, (cid, ready, _b) in enumerate(chans):
+                if cid is not None and known.get(i) is None:
+                    known[i] = cid
+                    if cid in closed_ids:
+                        # x re-uses cid at global time st["g"]: what does y hold at that time?
+                        ystate = None
+                        for sy in w.trace[y]:
+                            if sy["g"] > st["g"]:
+                                break
+                            ystate = sy["public"]["channels"]
+                        if ystate and any(c[0] == cid and c[1] != "closed" for c in ystate):
+                            out.add(cid)
+                if ready == "closed" and cid is not None:
+                    closed_ids.add(cid)
+    return out
+
+
+_ID_IN_WHAT = re.compile(r"\bid=(\d+)\b")
+
+
 def classify_finding(finding, comp_name, case, what):
+    if finding.get("id") == "C13-id-reuse-before-peer-closed":
+        if comp_name != "world":
+            return False
+        ids = {int(x) for x in _ID_IN_WHAT.findall(what)}
+        return bool(ids) and bool(ids & _ids_reused_while_peer_closing(case))
     if finding.get("id") == "C13-negotiated-close-before-established":
         return what.endswith("[negotiated channel closed before the association was established]")
     if finding.get("id") == "C13-open-delivered-after-close":
